@@ -133,7 +133,9 @@ func sameInts(a, b []int) bool {
 
 // ---------------------------------------------------------------- invariants of one state
 
-func (k *checker) checkState() string {
+// checkState: all invariants of the current state. Lookups are checked for every channel when the channel table
+// changed (full) or the plan is small, otherwise for the channels the step touched.
+func (k *checker) checkState(full, tableChanged bool, touched ...int) string {
 	b, m := k.b, k.m
 	n := len(m.up)
 	var all, std, cus, en, dis []int
@@ -168,11 +170,17 @@ func (k *checker) checkState() string {
 		}
 	}
 	// every channel record, through the getters and the snapshot hook
-	snap, ok := band.VerifSnapshot(b)
-	if !ok {
-		return "no snapshot for " + k.c.Band
+	// (the hook deep-copies every table of the band: taken when the channel table changed and on full steps; the
+	// enabled / custom flags are compared through the index-set getters above on every step)
+	useSnap := full || tableChanged
+	var snap band.VerifBandSnapshot
+	if useSnap {
+		var ok bool
+		if snap, ok = band.VerifSnapshot(b); !ok {
+			return "no snapshot for " + k.c.Band
+		}
 	}
-	if len(snap.UplinkChannels) != n || len(snap.DownlinkChannels) != len(m.down) {
+	if useSnap && (len(snap.UplinkChannels) != n || len(snap.DownlinkChannels) != len(m.down)) {
 		return fmt.Sprintf("%s: %d uplink / %d downlink channels, the history implies %d / %d", k.where(), len(snap.UplinkChannels), len(snap.DownlinkChannels), n, len(m.down))
 	}
 	for i, c := range m.up {
@@ -180,7 +188,10 @@ func (k *checker) checkState() string {
 		if err != nil {
 			return fmt.Sprintf("%s: GetUplinkChannel(%d) of %d channels: %v", k.where(), i, n, err)
 		}
-		s := snap.UplinkChannels[i]
+		s := band.VerifChannel{Channel: g, Enabled: c.enabled, Custom: c.custom}
+		if useSnap {
+			s = snap.UplinkChannels[i]
+		}
 		if g.Frequency != c.freq || g.MinDR != c.minDR || g.MaxDR != c.maxDR || s.Frequency != c.freq || s.MinDR != c.minDR || s.MaxDR != c.maxDR || s.Enabled != c.enabled || s.Custom != c.custom {
 			kind := "custom"
 			if !c.custom {
@@ -195,19 +206,25 @@ func (k *checker) checkState() string {
 		if err != nil {
 			return fmt.Sprintf("%s: GetDownlinkChannel(%d) of %d channels: %v", k.where(), j, len(m.down), err)
 		}
-		s := snap.DownlinkChannels[j]
+		s := band.VerifChannel{Channel: g, Enabled: c.enabled, Custom: c.custom}
+		if useSnap {
+			s = snap.DownlinkChannels[j]
+		}
 		if g.Frequency != c.freq || g.MinDR != c.minDR || g.MaxDR != c.maxDR || s.Custom != c.custom || s.Enabled != c.enabled {
 			return fmt.Sprintf("%s: downlink channel %d is {f %d DR %d..%d enabled %v custom %v}, the history implies {f %d DR %d..%d enabled %v custom %v}", k.where(), j,
 				g.Frequency, g.MinDR, g.MaxDR, s.Enabled, s.Custom, c.freq, c.minDR, c.maxDR, c.enabled, c.custom)
 		}
 	}
 	// invalid indices just outside the tables
-	for _, x := range []int{n, n + 1} {
-		if v := k.probe(x); v != "" {
+	if v := k.probe(n); v != "" {
+		return v
+	}
+	if full {
+		if v := k.probe(n + 1); v != "" {
 			return v
 		}
 	}
-	if v := k.checkLookups(); v != "" {
+	if v := k.checkLookups(full, touched); v != "" {
 		return v
 	}
 	// GetEnabledUplinkDataRates loops MinDR..MaxDR: only callable while every range is small (DESIGN §C15 soundness)
@@ -244,25 +261,43 @@ func (k *checker) checkState() string {
 	if v := k.checkCFList(); v != "" {
 		return v
 	}
-	return k.checkPlannerEncodable()
+	return k.checkPlannerEncodable(full)
 }
 
 func partition(all, a, b []int) string {
-	seen := map[int]int{}
-	for _, x := range a {
-		seen[x]++
-	}
-	for _, x := range b {
-		seen[x]++
-	}
-	for _, x := range all {
-		if seen[x] != 1 {
-			return fmt.Sprintf("channel %d occurs %d times", x, seen[x])
+	if len(all) == 0 {
+		if len(a)+len(b) > 0 {
+			return "members without any channel"
 		}
-		delete(seen, x)
+		return ""
 	}
-	for x := range seen {
-		return fmt.Sprintf("channel %d is not among all channels", x)
+	lo, hi := all[0], all[0]
+	for _, x := range all {
+		lo, hi = min(lo, x), max(hi, x)
+	}
+	if hi-lo >= 1<<16 {
+		return "index range too wide"
+	}
+	cnt := make([]int, hi-lo+1)
+	for _, l := range [][]int{a, b} {
+		for _, x := range l {
+			if x < lo || x > hi {
+				return fmt.Sprintf("channel %d is not among all channels", x)
+			}
+			cnt[x-lo]++
+		}
+	}
+	isAll := make([]bool, hi-lo+1)
+	for _, x := range all {
+		isAll[x-lo] = true
+		if cnt[x-lo] != 1 {
+			return fmt.Sprintf("channel %d occurs %d times", x, cnt[x-lo])
+		}
+	}
+	for i, c := range cnt {
+		if c > 0 && !isAll[i] {
+			return fmt.Sprintf("channel %d is not among all channels", lo+i)
+		}
 	}
 	return ""
 }
@@ -329,14 +364,27 @@ func (k *checker) probe(x int) string {
 }
 
 // lookups by frequency and by frequency + data-rate
-func (k *checker) checkLookups() string {
+func (k *checker) checkLookups(full bool, touched []int) string {
 	b, m := k.b, k.m
 	n := len(m.up)
+	sel := m.up
+	if !full {
+		sel = nil
+		for _, i := range touched {
+			if i >= 0 && i < n {
+				sel = append(sel, m.up[i])
+			}
+		}
+	}
 	freqs := map[uint32]bool{}
-	var order []uint32
 	for _, c := range m.up {
-		if !freqs[c.freq] {
-			freqs[c.freq] = true
+		freqs[c.freq] = true
+	}
+	var order []uint32
+	inOrder := map[uint32]bool{}
+	for _, c := range sel {
+		if !inOrder[c.freq] {
+			inOrder[c.freq] = true
 			order = append(order, c.freq)
 		}
 	}
@@ -371,7 +419,7 @@ func (k *checker) checkLookups() string {
 			}
 		}
 	}
-	for _, c := range m.up {
+	for _, c := range sel {
 		drs := []int{c.minDR, c.maxDR}
 		if c.minDR > math.MinInt {
 			drs = append(drs, c.minDR-1)
@@ -431,8 +479,12 @@ func trimMasks(ms []lorawan.ChMask) []lorawan.ChMask {
 
 func (k *checker) checkCFList() string {
 	b, m := k.b, k.m
+	var judged *lorawan.CFList // an answer that already passed for another version in this state
 	for _, ver := range versions {
 		cf := b.GetCFList(ver)
+		if cf != nil && judged != nil && reflect.DeepEqual(cf, judged) {
+			continue
+		}
 		if !m.dyn {
 			if ver == band.LoRaWAN_1_0_0 || ver == band.LoRaWAN_1_0_1 || ver == band.LoRaWAN_1_0_2 {
 				if cf != nil {
@@ -457,6 +509,7 @@ func (k *checker) checkCFList() string {
 			if v := k.cfListRoundTrip(ver, cf, nil); v != "" {
 				return v
 			}
+			judged = cf
 			continue
 		}
 		// dynamic plan: the eligible channels
@@ -540,6 +593,7 @@ func (k *checker) checkCFList() string {
 		if v := k.cfListRoundTrip(ver, cf, list); v != "" {
 			return v
 		}
+		judged = cf
 	}
 	return ""
 }
@@ -758,7 +812,7 @@ func (k *checker) checkStaticEncodable() string {
 }
 
 // the LinkADRReq payloads the planner produces in this state, for three device states
-func (k *checker) checkPlannerEncodable() string {
+func (k *checker) checkPlannerEncodable(full bool) string {
 	m := k.m
 	var std, all []int
 	for i, c := range m.up {
@@ -767,7 +821,11 @@ func (k *checker) checkPlannerEncodable() string {
 			std = append(std, i)
 		}
 	}
-	for _, dev := range [][]int{std, nil, all} {
+	devs := [][]int{std, nil, all}
+	if !full {
+		devs = devs[(k.step+3)%3:][:1] // one device state per intermediate step, all three on full steps
+	}
+	for _, dev := range devs {
 		pls := k.b.GetLinkADRReqPayloadsForEnabledUplinkChannelIndices(dev)
 		for j, pl := range pls {
 			bin, err := pl.MarshalBinary()
@@ -825,7 +883,7 @@ func checkHistory(c Case) evid.Outcome {
 		return *o
 	}
 	b, m := k.b, k.m
-	if v := k.checkState(); v != "" {
+	if v := k.checkState(true, true); v != "" {
 		return evid.Outcome{Violation: v}
 	}
 	if v := k.checkStaticEncodable(); v != "" {
@@ -889,14 +947,20 @@ func checkHistory(c Case) evid.Outcome {
 			probes = append(probes, op.B)
 		}
 		for _, x := range probes {
-			if x < 0 || x >= len(m.up) {
-				k.invalid++
-			}
 			if v := k.probe(x); v != "" {
 				return evid.Outcome{Violation: v}
 			}
 		}
-		if v := k.checkState(); v != "" {
+		// full lookup sweep on the last step and after an AddChannel whose frequency an older channel already has
+		full := i == len(c.Ops)-1
+		if len(m.up) != n {
+			for _, r := range m.up[:n] {
+				if r.freq == op.F {
+					full = true
+				}
+			}
+		}
+		if v := k.checkState(full, len(m.up) != n, op.A, len(m.up)-1); v != "" {
 			return evid.Outcome{Violation: v}
 		}
 	}
@@ -1027,8 +1091,8 @@ func genFreq(t *rapid.T, name string, wild bool) uint32 {
 	fa := facts[name]
 	k := rapid.IntRange(0, 11).Draw(t, "fkind")
 	switch {
-	case k == 0:
-		return 0
+	case k == 0 && rapid.IntRange(0, 3).Draw(t, "zero") == 0:
+		return 0 // AddChannel documents enabled = frequency != 0
 	case wild && k == 1:
 		return rapid.Uint32().Draw(t, "f")
 	case wild && k == 2:
@@ -1039,7 +1103,7 @@ func genFreq(t *rapid.T, name string, wild bool) uint32 {
 		return 2400000000 + 200*rapid.Uint32Range(0, 500000).Draw(t, "f200")
 	}
 	// near the band's own channels, so that frequencies collide with default and custom channels
-	return fa.f0 + 200000*rapid.Uint32Range(0, 7).Draw(t, "fstep")
+	return fa.f0 + 200000*rapid.Uint32Range(0, 15).Draw(t, "fstep")
 }
 
 func genDRs(t *rapid.T, name string, wild bool) (int, int) {
@@ -1108,16 +1172,16 @@ func TestProp(t *testing.T) {
 	r := evid.Begin(t, "C15")
 	defer r.Finish()
 
-	const oracle = " Oracle: a model (slice of channel records {frequency, MinDR, MaxDR, enabled, custom}; AddChannel appends an enabled=(frequency != 0) custom record to uplink and downlink tables on the 11 dynamic plans and fails without effect on US915/AU915/CN470; Disable/Enable flip one flag for 0 <= i < n and fail otherwise). After EVERY step: the five index-set getters equal the model and partition, GetUplinkChannel/GetDownlinkChannel and the snapshot hook equal the model record by record (so standard channels never change), GetUplinkChannelIndex(f, default) and GetUplinkChannelIndexForFrequencyDR(f, dr) for every channel frequency x {default, custom} x DR {min, max, min-1, max+1} return a matching channel or an error exactly when none matches (a match shadowed by another custom channel on the same frequency is counted, not judged), indices n, n+1 and the op's own integers are probed on GetUplinkChannel/GetDownlinkChannel/GetTXPowerOffset/GetRX1DataRateIndex (error, never panic; valid ones give the model value), GetEnabledUplinkDataRates (only while all DR ranges are small) is ascending, covers the enabled channels and nothing no channel has; GetCFList for the 6 protocol versions: fixed plans nil before 1.0.3, else exactly the enabled bits; dynamic plans the first five of the custom channels with the band's CFList DR range in order (disabled ones optional; states with a zero-frequency candidate counted and skipped), nil if none; MAC layer: default and validly added channels through NewChannelReq / DLChannelReq, RX2 default through RXParamSetupReq, ping-slot frequency through PingSlotChannelReq and BeaconFreqReq, the CFList bare and inside a JoinAcceptPayload, the planner's LinkADRReq payloads for three device states - each must encode and decode to the same values (asserted only for frequencies that are valid caller input: multiple of 100 Hz in 0.1-1 GHz, multiple of 200 Hz in 2.4-2.5 GHz, or 0). ISM2400 frequencies refused with the max-value error by the five 100-Hz encoders are the known finding K3. Non-trivial: at least one successful AddChannel and one successful Disable, or an invalid-index operation/probe."
+	const oracle = " Oracle: a model (slice of channel records {frequency, MinDR, MaxDR, enabled, custom}; AddChannel appends an enabled=(frequency != 0) custom record to uplink and downlink tables on the 11 dynamic plans and fails without effect on US915/AU915/CN470; Disable/Enable flip one flag for 0 <= i < n and fail otherwise). After EVERY step: the five index-set getters equal the model and partition, GetUplinkChannel/GetDownlinkChannel equal the model record by record, and so does the snapshot hook (taken on the fresh band, after every successful AddChannel and on the last step) (so standard channels never change), GetUplinkChannelIndex(f, default) and GetUplinkChannelIndexForFrequencyDR(f, dr) for every channel frequency x {default, custom} x DR {min, max, min-1, max+1} return a matching channel or an error exactly when none matches (all channels on the fresh band, on the last step and after an AddChannel that repeats an existing frequency; the op's channel and the newest channel on the other steps) (a match shadowed by another custom channel on the same frequency is counted, not judged), indices n, n+1 and the op's own integers are probed on GetUplinkChannel/GetDownlinkChannel/GetTXPowerOffset/GetRX1DataRateIndex (error, never panic; valid ones give the model value), GetEnabledUplinkDataRates (only while all DR ranges are small) is ascending, covers the enabled channels and nothing no channel has; GetCFList for the 6 protocol versions: fixed plans nil before 1.0.3, else exactly the enabled bits; dynamic plans the first five of the custom channels with the band's CFList DR range in order (disabled ones optional; states with a zero-frequency candidate counted and skipped), nil if none; MAC layer: default and validly added channels through NewChannelReq / DLChannelReq, RX2 default through RXParamSetupReq, ping-slot frequency through PingSlotChannelReq and BeaconFreqReq, the CFList bare and inside a JoinAcceptPayload, the planner's LinkADRReq payloads for three device states - each must encode and decode to the same values (asserted only for frequencies that are valid caller input: multiple of 100 Hz in 0.1-1 GHz, multiple of 200 Hz in 2.4-2.5 GHz, or 0). ISM2400 frequencies refused with the max-value error by the five 100-Hz encoders are the known finding K3. Non-trivial: at least one successful AddChannel and one successful Disable, or a Disable/Enable with an invalid index."
 
 	// the K3 witness lives in this sub-check, so it runs first (the framework activates a known class when its witness fails)
 	evid.Rapid(r, t, "valid-histories",
 		"rapid: band uniform over the 14 bands x repeater x dwell x 0..30 ops with VALID arguments only (AddChannel on dynamic plans with frequency near the band's channels so that frequencies collide / any valid frequency / 0, DR range = CFList range 50% / 6..6 / any 0..15 pair; Disable/Enable of existing indices, custom channels preferred 1/3) x DevAddr x beacon time for the ping-slot frequency."+oracle,
-		30000, 1000000, genHistory(false), checkHistory)
+		20000, 600000, genHistory(false), checkHistory)
 
 	evid.Rapid(r, t, "state-machine",
 		"rapid: band uniform over the 14 bands x repeater x dwell x 0..30 ops over {AddChannel(f, minDR, maxDR), Disable(i), Enable(i)} with ARBITRARY arguments: indices valid / n..n+2 / -1 / -1..-100 / MinInt64, MaxInt64, +-2^31, +-2^32 / any int; frequencies 0 / any uint32 / not a multiple of 100 Hz / valid; DR ints valid, reversed, negative, huge; AddChannel also on fixed plans."+oracle,
-		60000, 2000000, genHistory(true), checkHistory)
+		40000, 1400000, genHistory(true), checkHistory)
 
 	evid.Exhaustive(r, t, "invalid-index",
 		"14 bands x 6 index-taking accessors (GetTXPowerOffset, GetUplinkChannel, GetDownlinkChannel, DisableUplinkChannelIndex, EnableUplinkChannelIndex, GetRX1DataRateIndex offset) x index in {-1, -2, MinInt32, MinInt64, n, n+1, MaxInt32, MaxInt64, 0, n-1} on a fresh band: valid index no error, invalid index an error (never a panic) and unchanged tables (snapshot hook). Non-trivial: the invalid ones.",
